@@ -34,7 +34,7 @@ ASSUMPTIONS = [
 ]
 MIN_NONTRIVIAL = 300
 REQUIRED_COUNTERS = ["raise_points_reached", "handled_by_try", "unhandled_identity_checked", "render_context_markers_checked",
-                     "error_handler_checked", "format_exceptions_checked", "second_renders_checked", "include_handler_checked", "frames_checked",
+                     "error_handler_checked", "format_exceptions_checked", "format_exceptions_bytes_checked", "second_renders_checked", "include_handler_checked", "frames_checked",
                      "filter_decorator_cache_raise_points"]
 
 _st = {}
@@ -356,10 +356,23 @@ def unhandled_extras(lk, t, ctx, m1, exp1, boom, res, what, rc, main_text, inc_t
         out = lk3.get_template("main.html").render_unicode(**ctx)
         res.count("format_exceptions_checked")
         e = exp1[1]
-        if type(e).__name__ not in out or "Mako Runtime Error" not in out:
+        if type(e).__name__ not in out or "Mako Runtime Error" not in out or not out.lstrip().startswith(("<!DOCTYPE", "<html")):
             res.violate("error-page-missing", "%s\nformat_exceptions output lacks the error page: %r" % (what, out[:200]), replay_case=rc)
     except Exception as e:
         res.violate("error-page-missing", "%s\nformat_exceptions=True but render raised %r" % (what, e), replay_case=rc)
+    # (c') the same through render() with an output encoding (bytes): the error page replaces everything written so
+    # far, also when the failing callable ran on a copy of the Context (inherited templates, defs)
+    Impl.store.clear()
+    lk3b = make_lookup(main_text, inc_text, base_text, format_exceptions=True, output_encoding="utf-8")
+    try:
+        outb = lk3b.get_template("main.html").render(**ctx)
+        res.count("format_exceptions_bytes_checked")
+        e = exp1[1]
+        page = outb.decode("utf-8", "replace") if isinstance(outb, bytes) else "<<render() returned %s>>" % type(outb).__name__
+        if type(e).__name__ not in page or "Mako Runtime Error" not in page or not page.lstrip().startswith(("<!DOCTYPE", "<html")):
+            res.violate("error-page-missing", "%s\nformat_exceptions output of render() (bytes) is not the error page: %r" % (what, page[:200]), replay_case=rc)
+    except Exception as e:
+        res.violate("error-page-missing", "%s\nformat_exceptions=True but render() raised %r" % (what, e), replay_case=rc)
     # (d) include_error_handler returning True: only differs when the raise point lies inside the include
     Impl.store.clear()
     mi = model(True, {}, include_handler=True)
